@@ -332,151 +332,39 @@ Proof.
   replace (Z.of_N (r + 1) - 1)%Z with (Z.of_N r) by lia. reflexivity.
 Qed.
 
-(* ------------------------------------------------------------------ the A1 scanner of HEAD (sf_ functions) *)
+(* ------------------------------------------------------------------ the A1 scanner of HEAD (Col26) *)
 Definition no_panic {A} (o : outcome A) : Prop :=
   match o with Ok _ => True | Err _ => True | Panic => False | OutOfFuel => False end.
 
-Lemma sf_scan_letter_np : forall base c s, no_panic (sf_scan_letter base c s).
-Proof.
-  intros base c s. unfold sf_scan_letter. destruct (s_readrow s); [destruct (s_row s =? 0)|]; exact I.
-Qed.
-Lemma sf_scan_char_np : forall c s, no_panic (sf_scan_char c s).
-Proof.
-  intros c s. unfold sf_scan_char. destruct (is_digit c).
-  - destruct (s_readrow s); exact I.
-  - destruct (is_upper c); [apply sf_scan_letter_np|].
-    destruct (is_lower c); [apply sf_scan_letter_np|exact I].
-Qed.
-Lemma sf_scan_loop_np : forall rs s, no_panic (sf_scan_loop rs s).
-Proof.
-  induction rs as [|c t IH]; intros s; [exact I|]. cbn [sf_scan_loop].
-  pose proof (sf_scan_char_np c s) as H. destruct (sf_scan_char c s) as [s'| | |]; cbn [obind];
-    try exact H. apply IH.
-Qed.
-Theorem sf_get_row_and_optional_column_np : forall range, no_panic (sf_get_row_and_optional_column range).
-Proof.
-  intros range. unfold sf_get_row_and_optional_column.
-  pose proof (sf_scan_loop_np (rev range) scan_init) as H.
-  destruct (sf_scan_loop (rev range) scan_init) as [s| | |]; cbn [obind]; try exact H.
-  destruct (s_row s =? 0); [exact I|]. destruct (U32MAX <? s_row s - 1); [exact I|].
-  destruct (s_col s =? 0); [exact I|]. destruct (U32MAX <? s_col s - 1); exact I.
-Qed.
-Theorem sf_get_row_column_np : forall range, no_panic (sf_get_row_column range).
-Proof.
-  intros range. unfold sf_get_row_column. pose proof (sf_get_row_and_optional_column_np range) as H.
-  destruct (sf_get_row_and_optional_column range) as [[r oc]| | |]; cbn [obind]; try exact H.
-  cbn [snd]. destruct oc; exact I.
-Qed.
-Lemma sf_collect_parts_np : forall ps, no_panic (sf_collect_parts ps).
-Proof.
-  induction ps as [|p t IH]; [exact I|]. cbn [sf_collect_parts].
-  pose proof (sf_get_row_column_np p) as H. destruct (sf_get_row_column p) as [x| | |]; cbn [obind];
-    try exact H.
-  destruct (sf_collect_parts t) as [xs| | |]; cbn [obind]; first [exact IH | exact I].
-Qed.
+Lemma ne_no_panic : forall A (o : outcome A), o <> Panic /\ o <> OutOfFuel -> no_panic o.
+Proof. intros A [a|e| |] [H1 H2]; cbn; auto. Qed.
+
+(* from Col26_proofs (the totality theorems behind C14_no_panic_a1) *)
+Theorem get_row_column_np : forall range, no_panic (get_row_column range).
+Proof. intros range. apply ne_no_panic, get_row_column_total. Qed.
 (* get_dimension never panics, whatever the attribute holds (reversed, huge, empty, garbage) *)
-Theorem sf_get_dimension_np : forall d, no_panic (sf_get_dimension d).
-Proof.
-  intros d. unfold sf_get_dimension. pose proof (sf_collect_parts_np (split_on ch_colon d [])) as H.
-  destruct (sf_collect_parts (split_on ch_colon d [])) as [parts| | |]; cbn [obind]; try exact H.
-  destruct parts as [|p0 [|p1 [|p2 r]]]; exact I.
-Qed.
+Theorem get_dimension_np : forall d, no_panic (get_dimension d).
+Proof. intros d. apply ne_no_panic, get_dimension_total. Qed.
 
 (* results are u32 *)
-Theorem sf_get_row_column_u32 : forall range r c,
-  sf_get_row_column range = Ok (r, c) -> r <= U32MAX /\ c <= U32MAX.
+Theorem get_row_column_u32 : forall range r c,
+  get_row_column range = Ok (r, c) -> r <= U32MAX /\ c <= U32MAX.
 Proof.
-  intros range r c H. unfold sf_get_row_column, sf_get_row_and_optional_column in H.
-  destruct (sf_scan_loop (rev range) scan_init) as [s| | |]; cbn [obind] in H; try discriminate H.
+  intros range r c H. unfold get_row_column, get_row_and_optional_column in H.
+  destruct (scan_loop (rev range) scan_init) as [s| | |]; cbn [obind] in H; try discriminate H.
   destruct (s_row s =? 0); [discriminate H|].
   destruct (U32MAX <? s_row s - 1) eqn:E1; [discriminate H|].
-  destruct (s_col s =? 0); [discriminate H|].
-  destruct (U32MAX <? s_col s - 1) eqn:E2; [discriminate H|].
-  cbn [obind snd fst] in H. inversion H; subst. apply N.ltb_ge in E1, E2. split; assumption.
-Qed.
-
-(* wherever the scanner of the previous tree (Col26) succeeded, the new one returns the same *)
-Lemma sat_mul_small : forall a b, a * b <= U32MAX -> sat_mul64 a b = a * b.
-Proof. intros a b H. unfold sat_mul64, U64MAX, U32MAX in *. lia. Qed.
-Lemma sat_add_small : forall a b, a + b <= U32MAX -> sat_add64 a b = a + b.
-Proof. intros a b H. unfold sat_add64, U64MAX, U32MAX in *. lia. Qed.
-
-Lemma scan_letter_sim : forall base c s s',
-  scan_letter base c s = Ok s' -> sf_scan_letter base c s = Ok s'.
-Proof.
-  intros base c s s' H. unfold scan_letter, sf_scan_letter in *.
-  destruct (if s_readrow s
-            then if s_row s =? 0 then Err E_NO_ROW
-                 else Ok {| s_row := s_row s; s_col := s_col s; s_pow := 1; s_readrow := false |}
-            else Ok s) as [s1| | |]; cbn [obind] in *; try discriminate H.
-  unfold mul32, add32 in H.
-  destruct ((c - base + 1) * s_pow s1 <=? U32MAX) eqn:E1; cbn [obind] in H; [|discriminate H].
-  destruct (s_col s1 + (c - base + 1) * s_pow s1 <=? U32MAX) eqn:E2; cbn [obind] in H; [|discriminate H].
-  destruct (s_pow s1 * 26 <=? U32MAX) eqn:E3; cbn [obind] in H; [|discriminate H].
-  apply N.leb_le in E1, E2, E3. rewrite (sat_mul_small _ _ E1), (sat_add_small _ _ E2), (sat_mul_small _ _ E3).
-  exact H.
-Qed.
-
-Lemma scan_char_sim : forall c s s', scan_char c s = Ok s' -> sf_scan_char c s = Ok s'.
-Proof.
-  intros c s s' H. unfold scan_char, sf_scan_char in *. destruct (is_digit c).
-  - destruct (s_readrow s); [|discriminate H]. unfold mul32, add32 in H.
-    destruct ((c - ch_0) * s_pow s <=? U32MAX) eqn:E1; cbn [obind] in H; [|discriminate H].
-    destruct (s_row s + (c - ch_0) * s_pow s <=? U32MAX) eqn:E2; cbn [obind] in H; [|discriminate H].
-    destruct (s_pow s * 10 <=? U32MAX) eqn:E3; cbn [obind] in H; [|discriminate H].
-    apply N.leb_le in E1, E2, E3. rewrite (sat_mul_small _ _ E1), (sat_add_small _ _ E2), (sat_mul_small _ _ E3).
-    exact H.
-  - destruct (is_upper c); [apply scan_letter_sim; exact H|].
-    destruct (is_lower c); [apply scan_letter_sim; exact H|discriminate H].
-Qed.
-
-Lemma scan_loop_sim : forall rs s s', scan_loop rs s = Ok s' -> sf_scan_loop rs s = Ok s'.
-Proof.
-  induction rs as [|c t IH]; intros s s' H; [exact H|]. cbn [scan_loop sf_scan_loop] in *.
-  destruct (scan_char c s) as [s1| | |] eqn:E; cbn [obind] in H; try discriminate H.
-  rewrite (scan_char_sim c s s1 E). cbn [obind]. apply IH. exact H.
-Qed.
-
-Lemma get_row_and_optional_column_sim : forall range r c,
-  get_row_and_optional_column range = Ok (r, Some c) -> r <= U32MAX -> c <= U32MAX ->
-  sf_get_row_and_optional_column range = Ok (r, Some c).
-Proof.
-  intros range r c H Hr Hc. unfold get_row_and_optional_column, sf_get_row_and_optional_column in *.
-  destruct (scan_loop (rev range) scan_init) as [s| | |] eqn:E; cbn [obind] in H; try discriminate H.
-  rewrite (scan_loop_sim _ _ _ E). cbn [obind].
-  destruct (s_row s =? 0); [discriminate H|].
-  destruct (s_col s =? 0); [discriminate H|]. inversion H; subst.
-  destruct (U32MAX <? s_row s - 1) eqn:E1; [apply N.ltb_lt in E1; lia|].
-  destruct (U32MAX <? s_col s - 1) eqn:E2; [apply N.ltb_lt in E2; lia|]. reflexivity.
-Qed.
-
-Theorem sf_get_row_column_a1_name : forall r c,
-  r + 1 < ROW_TEXT_LIMIT -> c < COL_TEXT_LIMIT -> sf_get_row_column (a1_name r c) = Ok (r, c).
-Proof.
-  intros r c Hr Hc. unfold sf_get_row_column.
-  rewrite (get_row_and_optional_column_sim (a1_name r c) r c).
-  - reflexivity.
-  - apply get_row_and_optional_column_a1_name; assumption.
-  - unfold ROW_TEXT_LIMIT, U32MAX in *. lia.
-  - unfold COL_TEXT_LIMIT, U32MAX in *. lia.
-Qed.
-
-Theorem sf_get_dimension_pair : forall r0 c0 r1 c1,
-  r0 + 1 < ROW_TEXT_LIMIT -> c0 < COL_TEXT_LIMIT -> r1 + 1 < ROW_TEXT_LIMIT -> c1 < COL_TEXT_LIMIT ->
-  sf_get_dimension (a1_name r0 c0 ++ [ch_colon] ++ a1_name r1 c1) = Ok ((r0, c0), (r1, c1)).
-Proof.
-  intros r0 c0 r1 c1 H0 H1 H2 H3. unfold sf_get_dimension. cbn [app].
-  rewrite split_on_sep by apply a1_name_no_colon.
-  rewrite split_on_no_sep by apply a1_name_no_colon. cbn [rev app sf_collect_parts].
-  rewrite !sf_get_row_column_a1_name by assumption. reflexivity.
+  destruct (s_col s =? 0); cbn [negb andb obind snd fst] in H; [discriminate H|].
+  destruct (U32MAX <? s_col s - 1) eqn:E2; cbn [obind snd fst] in H; [discriminate H|].
+  inversion H; subst. apply N.ltb_ge in E1, E2. split; assumption.
 Qed.
 
 (* an inverted ref is now accepted and kept as it stands (it used to panic) *)
-Example sf_get_dimension_examples :
-  sf_get_dimension [66;50;58;65;49] = Ok ((1, 1), (0, 0)) /\                (* B2:A1 *)
-  sf_get_row_column [70;65;66;68;97;68;122;57] = Ok (8, 1866361093) /\      (* FABDaDz9 *)
-  sf_get_row_column [65;52;50;57;52;57;54;55;50;57;55] = Err E_OUT_OF_RANGE /\  (* A4294967297 *)
-  sf_get_row_column [65;52;50;57;52;57;54;55;50;57;54] = Ok (4294967295, 0).  (* A4294967296 *)
+Example get_dimension_examples :
+  get_dimension [66;50;58;65;49] = Ok ((1, 1), (0, 0)) /\                (* B2:A1 *)
+  get_row_column [70;65;66;68;97;68;122;57] = Ok (8, 1866361093) /\      (* FABDaDz9 *)
+  get_row_column [65;52;50;57;52;57;54;55;50;57;55] = Err E_RANGE /\     (* A4294967297 *)
+  get_row_column [65;52;50;57;52;57;54;55;50;57;54] = Ok (4294967295, 0).  (* A4294967296 *)
 Proof. vm_compute. repeat split. Qed.
 
 Section Run.
@@ -692,8 +580,8 @@ Lemma cell_step_np : forall fs pos k, fs_u32 fs -> u32_pos pos ->
   end.
 Proof.
   intros fs pos k Hfs Hp. destruct k as [|f|si ref f|si own|]; cbn [cell_step fst]; try exact Hfs; try exact I.
-  - pose proof (sf_get_dimension_np ref) as D.
-    destruct (sf_get_dimension ref) as [d| | |]; cbn [obind]; try exact D.
+  - pose proof (get_dimension_np ref) as D.
+    destruct (get_dimension ref) as [d| | |]; cbn [obind]; try exact D.
     cbn [fst]. intros si' f' d' m' G. unfold fm_insert in G. cbn [fm_get] in G.
     destruct (si =? si').
     + inversion G; subst. exact Hp.
@@ -1480,11 +1368,11 @@ Proof.
 Qed.
 
 Lemma ref_text_dimension : forall g, group_okb g = true ->
-  sf_get_dimension (ref_text (g_start g) (g_end g)) = Ok (g_start g, g_end g).
+  get_dimension (ref_text (g_start g) (g_end g)) = Ok (g_start g, g_end g).
 Proof.
   intros g H. unfold group_okb, MAX_ROWS, MAX_COLUMNS in H.
   destruct (g_start g) as [r0 c0], (g_end g) as [r1 c1]. cbn [fst snd] in *. unfold ref_text. cbn [fst snd].
-  apply sf_get_dimension_pair; unfold ROW_TEXT_LIMIT, COL_TEXT_LIMIT; lia.
+  apply get_dimension_pair; unfold ROW_TEXT_LIMIT, COL_TEXT_LIMIT; lia.
 Qed.
 
 Definition cell_okb (seen : list group) (c : scell) : bool :=
@@ -1547,11 +1435,11 @@ Proof. intros A o H. destruct o; try contradiction; split; discriminate. Qed.
 
 (* the C06-style statements: no hypothesis on the input *)
 Theorem no_panic_get_row_column : forall range,
-  sf_get_row_column range <> Panic /\ sf_get_row_column range <> OutOfFuel.
-Proof. intros range. apply no_panic_ne, sf_get_row_column_np. Qed.
+  get_row_column range <> Panic /\ get_row_column range <> OutOfFuel.
+Proof. intros range. apply no_panic_ne, get_row_column_np. Qed.
 Theorem no_panic_get_dimension : forall d,
-  sf_get_dimension d <> Panic /\ sf_get_dimension d <> OutOfFuel.
-Proof. intros d. apply no_panic_ne, sf_get_dimension_np. Qed.
+  get_dimension d <> Panic /\ get_dimension d <> OutOfFuel.
+Proof. intros d. apply no_panic_ne, get_dimension_np. Qed.
 Theorem no_panic_next_formula : forall is_alnum cells,
   Forall (fun c : fcell => u32_pos (fst c)) cells ->
   (run_cells is_alnum [] cells <> Panic /\ run_cells is_alnum [] cells <> OutOfFuel) /\
